@@ -328,7 +328,7 @@ def run_encoders(ck):
             c["id"] = 1000000 + i
             c["class"] = "corpus:" + c.get("class", "")
         cases += cs
-    if ck.replay:
+    if ck.replay and json.load(open(ck.replay)).get("case", {}).get("kind") != "bigtrace":
         rp = json.load(open(ck.replay))
         rc_path = os.path.join(ck.work, "replay.jsonl")
         with open(rc_path, "w") as f:
@@ -484,6 +484,143 @@ def run_encoders(ck):
     ck.add_samples([describe(c) for c in cases[:3]])
 
 
+BIG_SRC = "reader/controller/tempoController.go"
+
+
+def judge_big(c):
+    """independent judgement of one bigtrace case (Python's json parser over the body file); None = fine"""
+    o = c.get("big_out") or {}
+    if c.get("panic"):
+        return "the handler panicked: " + c["panic"]
+    if o.get("body_file"):
+        body = open(o["body_file"], "rb").read()
+    else:
+        body = unhex(c.get("out") or "")
+    n = o.get("n", -1)
+    if o.get("code") not in (0, 200):
+        return "status %s" % o.get("code")
+    try:
+        doc = json.loads(body.decode("utf-8"))
+    except Exception as e:
+        return "the %d-byte body is not one JSON document: %s" % (len(body), e)
+    try:
+        rs = doc["resourceSpans"]
+        assert isinstance(doc, dict) and list(doc) == ["resourceSpans"] and len(rs) == 1 and sorted(rs[0]) == ["instrumentationLibrarySpans", "resource"]
+        assert rs[0]["resource"] == {"attributes": [{"key": "collector", "value": {"stringValue": "qryn"}}]}
+        ils = rs[0]["instrumentationLibrarySpans"]
+        assert len(ils) == 1 and list(ils[0]) == ["spans"]
+        spans = ils[0]["spans"]
+    except Exception:
+        return "the document does not have the shape {resourceSpans:[{resource, instrumentationLibrarySpans:[{spans:[...]}]}]}"
+    ids = [sp.get("spanID") if isinstance(sp, dict) else None for sp in spans]
+    want = ["%016x" % (i + 1) for i in range(n)]
+    if ids != want:
+        k = next((i for i in range(min(len(ids), len(want))) if ids[i] != want[i]), min(len(ids), len(want)))
+        return "the spans array holds %d spans, the trace has %d; first difference at position %d (span id %s)" % (len(ids), n, k, ids[k] if k < len(ids) else "missing")
+    if any(sp.get("spanId") != sp.get("spanID") for sp in spans):
+        return "spanId and spanID differ"
+    if not c.get("valid"):
+        return "encoding/json.Valid rejects the body"
+    if c.get("gorows") != "ok":
+        return "encoding/json parse differs from the spans: %s" % c.get("gorows")
+    if not o.get("exact"):
+        return "the body is not frame header ++ spans joined by ',' ++ frame footer: first difference at byte %d" % o.get("diff_at", -1)
+    return None
+
+
+def big_observed(c, why):
+    o = dict(c.get("big_out") or {})
+    for k in ("got", "want", "frame"):
+        if o.get(k):
+            o[k] = unhex(o[k]).decode("latin1")
+    o.pop("body_file", None)
+    return {"what": why, "spans": o.get("n"), "body_bytes": o.get("body_len"),
+            "body around the first difference from the intended document": o.get("got"), "intended there": o.get("want"), "detail": o}
+
+
+def run_big_traces(ck, replay_case=None):
+    """TempoController.Trace, JSON branch, on traces that cross every integer constant of the controller's source"""
+    import vcheck
+    bdir = os.path.join(ck.work, "bigtrace")
+    os.makedirs(bdir, exist_ok=True)
+    env = {"VERIF_BIGTRACE_DIR": bdir}
+    outp = os.path.join(ck.work, "bigtrace.jsonl")
+    cases = []
+    root = os.path.dirname(os.path.dirname(__file__))
+    extra = []
+    corpus = os.path.join(root, "corpus", PID, "bigtrace.jsonl")
+    if os.path.exists(corpus):
+        for i, l in enumerate(open(corpus)):
+            if l.strip():
+                c = json.loads(l)
+                c["id"], c["class"] = 31000000 + i, "corpus:" + c.get("class", "")
+                extra.append(c)
+    if replay_case is not None:
+        rc_ = dict(replay_case)
+        rc_["id"] = 32000000
+        extra.append(rc_)
+    if extra:
+        inp = os.path.join(ck.work, "bigtrace_in.jsonl")
+        with open(inp, "w") as f:
+            for c in extra:
+                f.write(json.dumps(c) + "\n")
+        rc, out = ck.go_run("jsonresp", ["--cases", inp, "--out", outp + ".c"], env_extra=env)
+        if rc != 0:
+            ck.obligation("harness jsonresp ran the big-trace corpus", False, out[-1500:])
+            return
+        cases += [json.loads(l) for l in open(outp + ".c")]
+    env2 = dict(env)
+    env2["VERIF_BIGTRACE_SRC"] = os.path.join(vcheck.REPO, BIG_SRC)
+    rc, out = ck.go_run("jsonresp", ["--seed", ck.seed, "--out", outp], env_extra=env2)
+    if rc != 0:
+        ck.obligation("harness jsonresp ran the big traces", False, out[-1500:])
+        return
+    cases += [json.loads(l) for l in open(outp)]
+    bad = []
+    for c in cases:
+        why = judge_big(c)
+        if why:
+            bad.append((c, why))
+    ck.obligation("big traces: the JSON body of /api/traces/{id} is one document of the Tempo shape holding every span once, in order, byte for byte the frame of the empty "
+                  "trace around the marshalled spans joined by ',' - on %d traces of up to %d spans / %d bytes whose size crosses every integer constant of %s"
+                  % (len(cases), max(c["big_out"]["n"] for c in cases), max(c["big_out"]["body_len"] for c in cases), BIG_SRC),
+                  not bad, "; ".join("%s: %s" % (c["class"], w) for c, w in bad[:3]))
+    # reach: every byte threshold was crossed with spans on both sides, the exact recipes hit their size
+    gen = [c for c in cases if c["id"] < 31000000]
+    targets = {}
+    inexact = []
+    for c in gen:
+        b, o = c["big"], c["big_out"]
+        if b.get("target"):
+            t = targets.setdefault(b["target"], {"cases": 0, "crossed": 0})
+            t["cases"] += 1
+            if o["counted"] >= b["target"] - 1 and 0 <= o["boundary"] < o["n"] - 1:      # counted = the size right after the boundary span
+                t["crossed"] += 1
+            if b["target"] >= 1024 and "exact" in c["class"] and o["counted"] != b["target"] + b["delta"]:
+                inexact.append(c["class"])
+    ck.obligation("big traces: every size threshold is reached in the middle of a trace (spans follow the one that reaches it), and the recipes aimed at threshold-1 / threshold / threshold+1 "
+                  "(counting span texts / + commas / + header) hit that size exactly", bool(targets) and all(t["crossed"] == t["cases"] for t in targets.values()) and not inexact,
+                  "%s inexact %s" % ({k: v for k, v in targets.items() if v["crossed"] != v["cases"]}, inexact[:3]))
+    hist = {}
+    for c in gen:
+        k = re.sub(r" (exact|three times|every span larger)$", "", c["class"])
+        hist[k] = hist.get(k, 0) + 1
+    ck.extra["big_traces"] = {"cases": len(cases), "thresholds": hist, "bytes_total": sum(c["big_out"]["body_len"] for c in cases),
+                              "max_spans": max(c["big_out"]["n"] for c in cases)}
+    ck.coverage["evaluations"] += len(cases)
+    ck.coverage["distinct_nontrivial"] += len(set((c["big_out"]["n"], c["big_out"]["body_len"]) for c in cases if c["big_out"]["n"] >= 2))
+    ck.coverage["rule"] += ("big traces: per integer constant of tempoController.go (read with go/parser: literals, named constants, arithmetic; plus 4096 / 65536 / 262144 bytes and "
+                            "2000 spans whatever the source says) traces whose span texts reach constant-1 / constant / constant+1 bytes exactly (three ways of counting) with 1..3 spans "
+                            "after, a trace of random spans crossing it three times, spans each larger than it, and traces of constant-1 / constant / constant+1 / 2*constant+1 spans; "
+                            "spans drawn by the generator of the small trace cases. ")
+    if bad:
+        c, why = min(bad, key=lambda cw: cw[0]["big_out"].get("body_len", 0))
+        ck.violation({"property": PID, "kind": "response body is not the one well-formed document of its rows",
+                      "case": {"kind": "bigtrace", "class": c["class"], "big": c["big"]}, "observed": big_observed(c, why),
+                      "explanation": "GET /api/traces/{traceId} (JSON) for the trace of this recipe (harness/cmd/jsonresp/bigtrace.go: expandBig draws the spans from the seed): " + why,
+                      "replay": "bin/check C15 --replay <this file>"})
+
+
 POOL_DIRS = ["reader/controller", "reader/service"]
 POOL_ALLOW = set()      # "file:func" entries judged harmless by hand (none)
 
@@ -591,7 +728,26 @@ def run_rest(ck):
     run_canned_bodies(ck)
     run_source_facts(ck)
     run_pool_order(ck)
-    run_encoders(ck)
+    if not ck.go_build("jsonresp"):
+        ck.obligation("harness jsonresp builds against the repository", False, ck.build_out[-1500:])
+        return
+    rp_case = None
+    if ck.replay:
+        rp_case = json.load(open(ck.replay)).get("case", {})
+        rp_case = rp_case if rp_case.get("kind") == "bigtrace" else None
+    # the big traces need no Coq evaluation: judged beside the encoder shards
+    import threading
+    def big_job():
+        try:
+            run_big_traces(ck, rp_case)
+        except Exception as e:
+            ck.obligation("big traces ran and were judged", False, repr(e))
+    big_thread = threading.Thread(target=big_job)
+    big_thread.start()
+    try:
+        run_encoders(ck)
+    finally:
+        big_thread.join()
     import importlib.util
     spec = importlib.util.spec_from_file_location("c15_pyro", os.path.join(os.path.dirname(os.path.abspath(__file__)), "c15_pyro.py"))
     c15_pyro = importlib.util.module_from_spec(spec)
